@@ -247,7 +247,11 @@ func SmallText(r *rand.Rand) []byte {
 // Message returns (message, class). Classes follow the C11/C12 quantifiers.
 func Message(r *rand.Rand, counter int) (string, string) {
 	u := fmt.Sprintf("m%d", counter)
-	switch r.IntN(12) {
+	switch r.IntN(14) {
+	case 12:
+		return u + " raise coverage to 100% (was 87%)", "percent"
+	case 13:
+		return u + " fix %s placeholder, %d count, %v and 50%", "percent-verbs"
 	case 0:
 		return u + ": fix: the thing", "colon-space"
 	case 1:
